@@ -6,6 +6,7 @@ placeholders is preserved up to removal of escaping backslashes; unknown placeho
 kept / emptied / rejected according to the mode; expansion terminates.
 -/
 import CaddyModel.C18.Lemmas
+import CaddyModel.C18.CostLemmas
 
 namespace CaddyModel.C18
 
@@ -81,6 +82,38 @@ theorem unknown_never_substituted_when_kept (inp : Bytes) (known : Bytes → Boo
   rcases substituted_only_if_known_or_emptied inp known false eu key h with h | ⟨h, _⟩
   · exact h
   · cases h
+
+/-- **cost, the part that holds.** In every mode that does not keep unknown placeholders
+    (`ReplaceAll`, `ReplaceFunc`, `ReplaceOrErr(_, true)`) the scanner visits at most
+    `104·len + 204` input bytes — for every input and every binding. -/
+theorem cost_linear (inp : Bytes) (env : Env) (m : Mode)
+    (hm : m.unknownEmpty = true ∨ m.errUnknown = true) :
+    cost inp env m ≤ 104 * inp.length + 204 := by
+  unfold cost
+  split
+  · omega
+  · have := costLoop_le inp env m hm (inp.length + 1) 0 0 (Nat.zero_le _) (by omega)
+    unfold bound at this
+    omega
+
+/-
+FULL STATEMENT (property clause "terminates in time proportional to the input"), which the
+unchanged tree does NOT satisfy in the keep-unknown modes:
+   ∀ inp env m, cost inp env m ≤ 104 * inp.length + 204
+-/
+/-- `'{'^n ++ "}"` -/
+def nest (n : Nat) : Bytes := List.replicate n phOpen ++ [phClose]
+
+/-- **cost, the part that fails** (finding F14): `ReplaceKnown` on 250 nested openers already
+    exceeds the linear bound that holds for the other modes (31 876 visits; it is `≈ n²/2`). -/
+theorem cost_linear_all_modes_full_fails :
+    ∃ (inp : Bytes) (env : Env) (m : Mode), ¬ cost inp env m ≤ 104 * inp.length + 204 :=
+  ⟨nest 250, fun _ => none, ⟨[], false, false, false, none⟩, by
+    set_option maxRecDepth 100000 in decide⟩
+
+-- the same input is cheap in `ReplaceAll` (non-vacuity of `cost_linear`: 252 visits)
+example : cost (nest 250) (fun _ => none) ⟨[], true, false, false, none⟩ = 252 := by
+  set_option maxRecDepth 100000 in decide
 
 /-! ### non-vacuity: the hypotheses are met by concrete non-trivial inputs (kernel-evaluated) -/
 
